@@ -46,6 +46,76 @@ pub fn parse_hir(pattern: &str, unicode: bool, icase: bool) -> Result<Hir, Strin
 }
 
 impl RefDfa {
+    /// A longest string the pattern matches, when its language is finite (no live cycle) and that string has at most
+    /// `cap` bytes: the token at its maximal length (`[0-9a-f]{1,300}` -> 300 digits, a keyword -> itself).
+    pub fn longest_word(&self, cap: usize) -> Option<Vec<u8>> {
+        let n = self.ids.len();
+        // best[i]: (length of a longest accepted continuation from i, first byte of it); None = nothing accepted
+        let mut best: Vec<Option<(usize, Option<u8>)>> = vec![None; n];
+        let mut color = vec![0u8; n]; // 0 new, 1 on stack, 2 done
+        // iterative depth-first search over live successors
+        let mut stack: Vec<(usize, usize)> = vec![(0, 0)];
+        color[0] = 1;
+        while let Some(&mut (i, ref mut k)) = stack.last_mut() {
+            let s = self.ids[i];
+            if *k < self.reps.len() {
+                let b = self.reps[*k];
+                *k += 1;
+                let t = self.dfa.next_state(s, b);
+                if self.dfa.is_dead_state(t) {
+                    continue;
+                }
+                let j = self.index[&t];
+                if !self.live[j] && !self.dfa.is_match_state(self.dfa.next_eoi_state(t)) && !self.dfa.is_match_state(t) {
+                    continue;
+                }
+                match color[j] {
+                    0 => {
+                        color[j] = 1;
+                        stack.push((j, 0));
+                    }
+                    1 => {
+                        // a cycle through states that can still reach a match: infinite language
+                        if self.live[j] {
+                            return None;
+                        }
+                    }
+                    _ => {}
+                }
+            } else {
+                // all successors done: combine
+                let mut b_best: Option<(usize, Option<u8>)> = if self.dfa.is_match_state(self.dfa.next_eoi_state(s)) { Some((0, None)) } else { None };
+                for &b in &self.reps {
+                    let t = self.dfa.next_state(s, b);
+                    if self.dfa.is_dead_state(t) {
+                        continue;
+                    }
+                    let j = self.index[&t];
+                    // a match flagged on entering t stands for a word ending before this byte: not an extension
+                    if let Some((l, _)) = best[j] {
+                        if b_best.map(|(m, _)| l + 1 > m).unwrap_or(true) {
+                            b_best = Some((l + 1, Some(b)));
+                        }
+                    }
+                }
+                best[i] = b_best;
+                color[i] = 2;
+                stack.pop();
+            }
+        }
+        let (len, _) = best[0]?;
+        if len == 0 || len > cap {
+            return None;
+        }
+        let mut out = Vec::with_capacity(len);
+        let mut i = 0usize;
+        while let Some((_, Some(b))) = best[i] {
+            out.push(b);
+            i = self.index[&self.dfa.next_state(self.ids[i], b)];
+        }
+        Some(out)
+    }
+
     pub fn from_hir(hir: Hir) -> Result<RefDfa, String> {
         let nfa = NFA::compiler()
             .configure(thompson::Config::new().utf8(false).shrink(false))
